@@ -40,6 +40,11 @@ theorem db_call_waits_for_lock : Gen.dbCallBlocking = true := by decide
 theorem or_ignore_only_where_known :
     ∀ m ∈ Gen.insertMethods, ∀ p ∈ m.paths, usesOrIgnore p = true → m.cls = 0 ∧ m.name ≤ 2 := by decide
 
+/-- no code under ipv8/attestation wraps store calls in a `with <database>:` batch (inside one, every insert returns
+    before anything is committed — `deferred_block_invisible`): this is what makes the block-free hypothesis `TopLevel`
+    of `acked_survive` the right model of the identity and wallet code paths, community handlers included -/
+theorem store_callers_do_not_batch : Gen.batchingCallers = [] := by decide
+
 example : Gen.insertMethods.length ≥ 4 := by decide
 
 /-! ## crash at any point of any workload of inserts -/
